@@ -907,9 +907,12 @@ func Merge[T any](in ...Stream[T]) Stream[T] {
 		// Nothing will ever call sender.Close below.
 		sender.Close(nil)
 	}
+	var wg sync.WaitGroup
+	wg.Add(len(in))
 	for i := 0; i < len(in); i++ {
 		i := i
 		go func() {
+			defer wg.Done()
 			defer in[i].Close()
 			defer func() {
 				if int(atomic.AddUint32(&nDone, 1)) == len(in) &&
@@ -936,12 +939,14 @@ func Merge[T any](in ...Stream[T]) Stream[T] {
 			}
 		}()
 	}
-	return &mergeStream[T]{inner: receiver, cancel: cancel}
+	return &mergeStream[T]{inner: receiver, cancel: cancel, wg: &wg}
 }
 
 type mergeStream[T any] struct {
 	inner  Stream[T]
 	cancel func()
+	// Done once every input has been closed.
+	wg *sync.WaitGroup
 }
 
 func (s *mergeStream[T]) Next(ctx context.Context) (T, error) {
@@ -951,6 +956,7 @@ func (s *mergeStream[T]) Next(ctx context.Context) (T, error) {
 func (s *mergeStream[T]) Close() {
 	s.inner.Close()
 	s.cancel()
+	s.wg.Wait()
 }
 
 // Runs returns a stream of streams. The inner streams yield contiguous elements from s such that
